@@ -30,7 +30,8 @@ LEVEL_TEXT = ("Machine-checked: for every state in which a transformation can st
               "over all finite API histories every reply equals that of a specification that uses a fresh transformer "
               "per call (history_independent_partial); parameters are sticky and last-write-wins only under the proposed fix "
               "(param_overwrite_counterexample on the tree as found); the VariablesStack index invariant is proved for a hand model of "
-              "push/pop/setCurrentStackFrameIndex (varstack_reset_from_any_history). The statement lists and member tables are "
+              "push/pop/setCurrentStackFrameIndex (varstack_reset_from_any_history) and, for properly nested interpreter block programs, at "
+              "every abort point (interpreter_abort_states_midok). The statement lists and member tables are "
               "regenerated from /repo on every run; random histories on the real library validate the abstraction.")
 LEVEL_NOTE = ("Trusted: Lean kernel; axioms propext/Classical.choice/Quot.sound; translate/c06_reset.py (clang-14 AST for "
               "members, regex over comment-stripped bodies; unrecognised statements are errors); the classification "
@@ -39,7 +40,8 @@ LEVEL_NOTE = ("Trusted: Lean kernel; axioms propext/Classical.choice/Quot.sound;
               "(modelled, not verified); that the interpreter writes only members classified volatile and keeps "
               "0 <= m_currentStackFrameIndex <= m_stack.size() (modelled, not verified; exercised by the harness). The "
               "XSLT interpreter itself is not modelled: output equality with a fresh transformer is checked by the "
-              "correspondence run only, bounded by generator coverage.")
+              "correspondence run only, bounded by generator coverage. A memory probe (counting MemoryManager, N identical "
+              "transformations) checks that nothing accumulates per call.")
 DESIGN_REF = "DESIGN.md section 5, C06; design/C06.md"
 
 THEOREMS = [
@@ -51,6 +53,7 @@ THEOREMS = [
     "XalanModel.Props.C06.varstack_index_counterexample",
     "XalanModel.Props.C06.varstack_index_restored",
     "XalanModel.Props.C06.varstack_reset_from_any_history",
+    "XalanModel.Props.C06.interpreter_abort_states_midok",
     "XalanModel.Props.C06.history_independent_partial",
     "XalanModel.Props.C06.params_sticky",
     "XalanModel.Props.C06.param_last_write_wins",
@@ -150,7 +153,7 @@ class Runner:
                 mode = "c" if o.startswith("transform ") else "s"
                 b = len(hlines)
                 # the fresh transformer gets the parameters the SPECIFICATION says are currently set (S), not the model's P
-                hlines.append("fresh %s %s %s %s %s" % (mode, t["sheet"], t["src"], t[fresh_from], t["F"]))
+                hlines.append("fresh %s %s %s %s %s %s" % (mode, t["sheet"], t["src"], t[fresh_from], t["F"], t["C"]))
             idx.append((a, b))
         with open(hreq, "w") as f:
             f.write("\n".join(hlines) + "\n")
@@ -189,15 +192,16 @@ class Runner:
                 rec = {"op": o, "sheet": t["sheet"], "src": t["src"], "rc": r1.get("rc"), "P": t["P"], "S": t["S"], "F": t["F"]}
                 res[hi]["transforms"].append(rec)
                 same = (r1.get("rc") == r2.get("rc") and r1.get("out") == r2.get("out")
-                        and canon_err(r1.get("err")) == canon_err(r2.get("err")))
+                        and canon_err(r1.get("err")) == canon_err(r2.get("err"))
+                        and r1.get("pl") == r2.get("pl") and r1.get("tl") == r2.get("tl"))
                 if "rc" not in r1 or "rc" not in r2:
                     res[hi].update(status="model", at=k - 1, detail="unexpected harness reply %r / %r" % (hv[:200], hout[b][:200]))
                     dead.add(hi)
                 elif not same:
                     res[hi].update(status="differs", at=k - 1, reused=r1, fresh=r2, model=t,
-                                   detail="reused: rc=%s out=%r err=%r | fresh: rc=%s out=%r err=%r" % (
-                                       r1.get("rc"), unhex(r1.get("out"))[:300], canon_err(r1.get("err"))[:200],
-                                       r2.get("rc"), unhex(r2.get("out"))[:300], canon_err(r2.get("err"))[:200]))
+                                   detail="reused: rc=%s out=%r err=%r listeners=%s/%s | fresh: rc=%s out=%r err=%r listeners=%s/%s" % (
+                                       r1.get("rc"), unhex(r1.get("out"))[:300], canon_err(r1.get("err"))[:200], r1.get("pl"), r1.get("tl"),
+                                       r2.get("rc"), unhex(r2.get("out"))[:300], canon_err(r2.get("err"))[:200], r2.get("pl"), r2.get("tl")))
                     dead.add(hi)
                 elif "sizes" in r1:
                     # guarded hook present: internal sizes right after the call vs the model's prediction
@@ -209,6 +213,9 @@ class Runner:
                     unknown = [n for n in got if n not in model_post]
                     bad = [(n, ref.get(n), got[n]) for n in sorted(got)
                            if n in model_post and model_post[n] != "?" and ref.get(n) != got[n]]
+                    # XalanObjectStackCache members while reset() does not give the objects back (model says `?`)
+                    left = [(n, ref.get(n), got[n]) for n in sorted(got)
+                            if model_post.get(n) == "?" and ref.get(n) != got[n]]
                     rec["hook"] = True
                     rec["objdepth"] = sum(int(v) for n, v in got.items() if model_post.get(n) == "?")
                     if unknown:
@@ -218,6 +225,10 @@ class Runner:
                         res[hi].update(status="sizes", at=k - 1, detail="after the call: " + ", ".join(
                             "%s=%s (new transformer: %s)" % (n, g, w) for n, w, g in bad), bad=bad)
                         dead.add(hi)
+                    elif left and not res[hi].get("objleft"):
+                        # recorded once per history; the history goes on (status/output are still compared)
+                        res[hi]["objleft"] = {"at": k - 1, "detail": "after the call: " + ", ".join(
+                            "%s=%s (new transformer: %s)" % (n, g, w) for n, w, g in left)}
             else:
                 # return codes: exact for destroy*, sign for compile/parse (several negative codes exist)
                 ok = hv == mv
@@ -228,6 +239,20 @@ class Runner:
                     dead.add(hi)
         clean_exit = p.returncode == 0
         return res, clean_exit, herr, hreq
+
+
+def _probe(self, lines):
+    req = os.path.join(self.work, "c06_probe.req")
+    with open(req, "w") as f:
+        f.write("\n".join(list(G.defs()) + lines) + "\n")
+    p = subprocess.run([self.harness], stdin=open(req), stdout=subprocess.PIPE, stderr=subprocess.PIPE, timeout=1200)
+    out = p.stdout.decode("utf-8", "replace").split("\n")
+    nd = len(G.defs())
+    res = out[nd:nd + len(lines)]
+    return res + ["<no reply: rc=%s>" % p.returncode] * (len(lines) - len(res))
+
+
+Runner.probe = _probe
 
 
 def valid(ops):
@@ -318,7 +343,7 @@ def run(ctx):
     runner = Runner(harness, model, work)
 
     r = Rng(ctx.seed)
-    nhist, maxops = (150, 12) if not ctx.thorough else (10000, 24)
+    nhist, maxops = (200, 14) if not ctx.thorough else (10000, 24)
     hists = [list(ops) for _, ops in G.CORPUS]
     names = [n for n, _ in G.CORPUS]
     ncorpus = len(hists)
@@ -356,6 +381,23 @@ def run(ctx):
                 if t.get("hook"):
                     state["hook"] = True
                     state["leak"] = max(state["leak"], t.get("objdepth", 0))
+            if rr.get("objleft") and not state.get("objleft_reported"):
+                state["objleft_reported"] = True
+                ol = rr["objleft"]
+                prefix = ops[:ol["at"] + 1]
+                last = prefix[-1]
+                small = [last]
+                if last.startswith("transform "):
+                    a, b = last.split()[1:3]
+                    cs = [o for o in prefix if o.startswith("compile %s " % a) and o.endswith(" ok")][-1:]
+                    ps = [o for o in prefix if o.startswith("parse %s " % b) and o.endswith(" ok")][-1:]
+                    small = cs + ps + [last]
+                r1, _, _, _ = rn.run([small], "objleft")
+                if not r1[0].get("objleft"):
+                    small = prefix
+                ctx.fail("objects-left-checked-out: " + " ; ".join(small),
+                         "an aborted transformation leaves cached objects checked out of the execution context's "
+                         "XalanObjectStackCache members for the rest of the transformer's life (hook verifStackSizes): " + ol["detail"], small)
             st = rr["status"]
             if st in ("ok", "notrun"):
                 continue
@@ -386,6 +428,25 @@ def run(ctx):
 
     res, clean_exit, herr, hreq = runner.run(hists, "main")
     process(runner, hists, res, True)
+    # memory probe (needs no hook): N identical transformations on one transformer that allocates through a counting
+    # MemoryManager; the live byte count must not grow per call -- "nothing else carries over" includes memory
+    n = 60 if not ctx.thorough else 300
+    probes = runner.probe(["leakprobe %s %s %d" % (sh, so, n) for sh, so in G.LEAK_PROBES])
+    ctx.extra["leak_probe_bytes_per_call"] = {}
+    for (sh, so), line in zip(G.LEAK_PROBES, probes):
+        w = line.split()
+        if len(w) < 4 or w[0] != "L":
+            ctx.oblige("memory probe runs (%s)" % sh, "correspondence", False, line[:300])
+            continue
+        b1, b2, b3 = int(w[1]), int(w[2]), int(w[3])
+        per = (b3 - b2) / float(n - 2 * n // 3)
+        ctx.extra["leak_probe_bytes_per_call"][sh] = round(per, 1)
+        ctx.case(nontrivial_key="leakprobe " + sh, cls="leakprobe")
+        if per > 64 and (b2 - b1) > 0:
+            ctx.fail("leak-per-call[%s]: leakprobe %s %s %d" % ("abort" if sh in G.ABORTERS else "success", sh, so, n),
+                     "the transformer's memory grows by about %.0f bytes with every transformation of this kind (live bytes after "
+                     "%d/%d/%d calls: %d/%d/%d): state is carried over for the transformer's lifetime" % (per, n // 3, 2 * n // 3, n, b1, b2, b3),
+                     ["leakprobe %s %s %d" % (sh, so, n)])
     if ctx.thorough:
         # the same histories (corpus + the first 400 generated) against an ASan/UBSan build of the working tree:
         # a stale pointer left behind by a transformation is then a report, not a lucky read
@@ -426,6 +487,10 @@ def replay(ctx, path):
     harness = common.build_harness("c06_reuse", ["c06_reuse.cpp"], flavor="hooks")
     work = os.path.join(common.CACHE, "work")
     os.makedirs(work, exist_ok=True)
+    if ops and ops[0].startswith("leakprobe"):
+        out = Runner(harness, model, work).probe(ops)
+        print("probe:", ops, "->", out)
+        return 0
     if not ops:
         print("replay file names broken obligations only:", [o["name"] for o in d.get("broken_obligations", [])])
         return 1
